@@ -115,6 +115,12 @@ def check_properties_file(pid, wd):
 
 
 # ---------------------------------------------------------------- Go side
+def limit_memory():
+    # the code under test can blow up on hostile shapes (DESIGN.md 0.3): cap the harness's address space at 48 GiB
+    import resource
+    resource.setrlimit(resource.RLIMIT_AS, (48 << 30, 48 << 30))
+
+
 def harness_build(wd, race=False):
     out = os.path.join(wd, "vh")
     with Lock("go"):
@@ -232,7 +238,8 @@ def decide(pid, tier):
             nn = max(1, int(n * sub.get("share", 1.0)))
             cmd = [vh, sub["name"], "-seed", str(seed), "-n", str(nn), "-out", out, "-tier", tier] + sub.get("args", [])
             try:
-                r = run(cmd, cwd=wd, env=GOENV, timeout=cfg.get("harness_timeout", 1800 if tier == "quick" else 7200))
+                r = run(cmd, cwd=wd, env=GOENV, timeout=cfg.get("harness_timeout", 1800 if tier == "quick" else 7200),
+                        preexec_fn=limit_memory)
                 rc, rout = r.returncode, r.stdout
             except subprocess.TimeoutExpired as e:
                 rc, rout = 124, "harness timed out: %s" % e
